@@ -47,6 +47,7 @@ func genCfg(t *rapid.T, role string) rig.Cfg {
 	cfg.HBInt = rapid.IntRange(min, max).Draw(t, "hbInt")
 	if role == "initiator" {
 		cfg.CustomLogon = rapid.IntRange(0, 3).Draw(t, "customLogon") == 0
+		cfg.LogonFailsOnce = cfg.CustomLogon && rapid.Bool().Draw(t, "logonFailsOnce")
 	}
 	return cfg
 }
@@ -76,6 +77,10 @@ func (g *hgen) logon(spec LogonSpec) *rig.InMsg {
 	switch spec.Method {
 	case "allowed":
 		fields = append(fields, rig.F(rig.TagEncryptMethod, rapid.SampledFrom(c.Methods).Draw(g.t, "method")))
+	case "padded":
+		// an allowed method with a blank around it: another value, not in the set
+		mth := rapid.SampledFrom(c.Methods).Draw(g.t, "methodPadded")
+		fields = append(fields, rig.F(rig.TagEncryptMethod, rapid.SampledFrom([]string{mth + " ", " " + mth, mth + "\t"}).Draw(g.t, "methodPad")))
 	case "disallowed":
 		for _, m := range []string{"0", "1", "2", "3", "7"} {
 			if !allowed[m] {
@@ -96,6 +101,11 @@ func (g *hgen) logon(spec LogonSpec) *rig.InMsg {
 		hb = min(c.HBMax, c.HBMin+3600)
 	case "above":
 		hb = c.HBMax + 1 + rapid.IntRange(0, 100).Draw(g.t, "hbAbove")
+		if c.HBMax < 1000000 && rapid.IntRange(0, 3).Draw(g.t, "hbWraps") == 0 {
+			// far above the limit: a number of seconds that, counted in nanoseconds, wraps around 2^64 (or 2^63)
+			// to something that looks like an interval inside the limits
+			hb = rapid.SampledFrom([]int{18446744074, 9223372037}).Draw(g.t, "hbWrapBase") + rapid.IntRange(c.HBMin, c.HBMax).Draw(g.t, "hbWrapInside")
+		}
 	case "huge":
 		hb = rapid.SampledFrom([]int{9223372037, 9223372040, 10000000000}).Draw(g.t, "hbHuge") // inside limits that allow anything, yet not a length of time
 	case "text":
@@ -120,12 +130,20 @@ func (g *hgen) logon(spec LogonSpec) *rig.InMsg {
 	if spec.Creds == "bad" {
 		user, pass = rapid.SampledFrom([]string{"mallory", "alice"}).Draw(g.t, "badUser"), "wrong"
 	}
+	if spec.Creds == "padded" {
+		// the right credentials with a blank around one of them: not the right credentials
+		if rapid.Bool().Draw(g.t, "padUser") {
+			user = rapid.SampledFrom([]string{"alice ", " alice"}).Draw(g.t, "paddedUser")
+		} else {
+			pass = rapid.SampledFrom([]string{"secret ", " secret", "secret\n"}).Draw(g.t, "paddedPass")
+		}
+	}
 	fields = append(fields, rig.F(rig.TagUsername, user), rig.F(rig.TagPassword, pass))
 	if hb > g.maxHB && hb <= 100000 {
 		g.maxHB = hb
 	}
 	m := &rig.InMsg{Type: rig.TLogon, Seq: g.seq(), Fields: fields, Note: fmt.Sprintf("logon hb=%s method=%s creds=%s", spec.HB, spec.Method, spec.Creds)}
-	if (spec.HB == "below" || spec.HB == "above" || spec.Method == "disallowed" || spec.Creds == "bad") && rapid.IntRange(0, 4).Draw(g.t, "seqZero") == 0 {
+	if (spec.HB == "below" || spec.HB == "above" || spec.Method == "disallowed" || spec.Method == "padded" || spec.Creds == "bad") && rapid.IntRange(0, 4).Draw(g.t, "seqZero") == 0 {
 		// a Logon that is refused for what it asks for, numbered 0: the Reject quotes that number like any other
 		m.Seq = "0"
 		m.Note += " seq=0"
